@@ -2,8 +2,8 @@
    round trip (typedpy/structures/structures.py).  Executable; no proofs here.
 
    An instance is the record [inst]: class name, the public part of instance.__dict__ (order not
-   significant), the `_none_fields` set (absent after unpickling: __getstate__ only keeps fields)
-   and whether `_instantiated` is present.  Values are [pyval]; value equality is [py_eq]. *)
+   significant), the `_none_fields` set and whether `_instantiated` is present (both are restored by
+   unpickling: __getstate__ carries `_none_fields`, __setstate__ sets `_instantiated`).  Values are [pyval]; value equality is [py_eq]. *)
 From Coq Require Import ZArith QArith NArith String Ascii Bool Lia List.
 Import ListNotations.
 From TP Require Import Base.PyVal Fields.FieldAst.
@@ -246,16 +246,15 @@ Definition deepcopy_inst (x : inst) : inst :=
      i_attrs := map (fun p => (fst p, deepcopy_val (snd p))) (i_attrs x);
      i_nones := i_nones x; i_live := i_live x |}.
 
-(* pickle.loads(pickle.dumps(x)): __getstate__ keeps the declared fields present in __dict__;
-   the default __setstate__ stores them into a fresh __dict__: `_none_fields`, `_instantiated`
-   and undeclared (additional) attributes are gone *)
+(* pickle.loads(pickle.dumps(x)): __getstate__ keeps the declared fields present in __dict__ and the
+   `_none_fields` set (an empty one when the instance has none); __setstate__ stores them into a fresh
+   __dict__ and sets `_instantiated`.  Undeclared (additional) attributes are gone. *)
 Definition pickle_rt (c : classdef) (x : inst) : inst :=
   {| i_cls := i_cls x;
      i_attrs := filter (fun p => match find_field (c_fields c) (fst p) with Some _ => true | None => false end)
                        (i_attrs x);
-     i_nones := None; i_live := false |}.
+     i_nones := Some (nones_list x); i_live := true |}.
 
-(* the state the round trip keeps: only declared fields, no None-marked names *)
+(* the state the round trip keeps: only declared fields *)
 Definition pickle_safe (c : classdef) (x : inst) : bool :=
-  forallb (fun p => match find_field (c_fields c) (fst p) with Some _ => true | None => false end) (i_attrs x) &&
-  match i_nones x with Some (_ :: _) => false | _ => true end.
+  forallb (fun p => match find_field (c_fields c) (fst p) with Some _ => true | None => false end) (i_attrs x).
